@@ -101,8 +101,10 @@ EXC = {'IndexError': 1, 'ValueError': 2, 'TypeError': 3, 'AssertionError': 4}
 # root causes the model still mirrors.  (Repaired in /repo and therefore NOT listed, so that a regression is a VIOLATION:
 # slice index arithmetic -- fix 639aa3a; extend by a single-valued object appending matrix rows -- fix e8a8671;
 # empty slice of the SpatialVector classes raising IndexError -- fix 40af48b;
-# construction from an empty list raising IndexError -- fix 1105ad0.)
-KEYS = {4: 'oracle:single-value-required:empty-object-stored-as-element'}
+# construction from an empty list raising IndexError -- fix 1105ad0; empty object stored as an element -- fix b1d6482.)
+# Nothing is left: the model equals the specification for every operation (C10_step_refines), so ANY difference between the
+# implementation and the list is a VIOLATION.
+KEYS = {}
 OPNAME = {'G': 'getitem', 'S': 'getitem-slice', 'I': 'iter', 'L': 'len', 'T': 'setitem', 'D': 'delitem', 'X': 'delitem-slice',
           'A': 'append', 'E': 'extend', 'N': 'insert', 'P': 'pop', 'R': 'reverse', 'C': 'clear', 'CI': 'ctor-from-iteration',
           'CC': 'copy-ctor', 'CF': 'ctor-from-list', 'AL': 'Alloc', 'EM': 'Empty'}
